@@ -80,6 +80,25 @@ def stepLine (d : DS) (ws : List String) : DS × List String :=
       let quiet := match op with | .policy _ _ => !lines.contains "bad-op" | _ => false
       ({ s := s1, inj := [] }, if quiet then [hdr] else [hdr] ++ lines ++ [ownLine s1])
 
-def modes : List (String × IO Unit) := [("fdledger", runLines ({} : DS) stepLine)]
+/-- generator support: after every op also print the control state of every handle -/
+def hsLine (s : St) : String :=
+  "hs" ++ String.join ((List.range s.hs.length).map (fun i =>
+    match s.hs[i]? with
+    | none => ""
+    | some h =>
+      let k := match h.kind with
+        | .tcp => "tcp" | .pipe => "pipe" | .udp => "udp" | .tty => "tty" | .poll => "poll" | .async => "async"
+        | .signal => "signal" | .fsev => "fsev" | .proc => "proc"
+      let st := match h.st with | .dead => "dead" | .live => "live" | .closing => "closing" | .closed => "closed"
+      let b (x : Bool) : String := if x then "1" else "0"
+      s!" {k},{st},{b h.listening},{b h.bound},{b h.ipc},{b h.readable},{b h.connected},{h.pending},{b h.delayed},{b h.reading},{h.inflight.length}"))
+    ++ s!" | loop={if s.loopOk then 1 else 0}"
+
+def stepLineGen (d : DS) (ws : List String) : DS × List String :=
+  let (d', out) := stepLine d ws
+  (d', if out.isEmpty then [] else out ++ [hsLine d'.s])
+
+def modes : List (String × IO Unit) :=
+  [("fdledger", runLines ({} : DS) stepLine), ("fdledger-gen", runLines ({} : DS) stepLineGen)]
 
 end Drivers.C15
